@@ -75,7 +75,15 @@ func (t *tally) tie(name string, input any, detail string) {
 func (t *tally) prop(name, shape string, input any, detail string) {
 	t.declare("prop", name)
 	t.propOK[name] = false
-	if t.c.NFails(name) < 5 {
+	// at most five inputs per shape; failures of other shapes in the same family (a recorded known finding, say) do not
+	// use up this shape's room - every broken obligation comes with a failing input
+	n := 0
+	for _, f := range t.c.Fails {
+		if f.Family == name && f.Shape == shape {
+			n++
+		}
+	}
+	if n < 5 {
 		t.c.Fail("property", name, shape, input, detail)
 	}
 }
@@ -108,7 +116,7 @@ func (t *tally) flush() {
 func q(s string) string { return fmt.Sprintf("%q", s) }
 
 func Run(c *core.Ctx) {
-	c.Rule = "strings: every code point 0..0x2FFF singly (surrogates and out-of-range as invalid bytes), code points paired before/after each of 26 metacharacters, invalid lead/continuation patterns, XSS vectors and mutations, random strings over an adversarial alphabet; values: random nested slices/maps/structs of those strings with numbers, bools, nil; names: every string over a 10-symbol alphabet up to the tier's length; generated probe templates rendered through the real generator; script templates: every literal body of up to 3 (thorough 4) pieces over {x, escaped backslash, escaped quote, other quote, //, /*, \\n, backslash runs} for each quote kind followed by / holding a hole, plus a random grammar of statements, literals with escape sequences, comments and holes; typed values: ~80 Go types of an in-literal hole (named int/uint/float/bool kinds with MarshalText or MarshalJSON returning a string, an object, an array, padded text; plain named scalars and Stringers; string kinds other than string; structs with marshalers, `,string` tags, embedded fields; json.RawMessage; pointers incl. nil and pointer-receiver marshalers; maps with TextMarshaler keys; slices, arrays, []byte; error values; json.Number, time.Time, big.Int, big.Float, net.IP, url.URL, slog.Level; the same held in interfaces; values that fail to marshal) x 8 fixed label triples x 5 JSON forms, then random labels, each called with its static type and as any; parse histories: one to three earlier files in the same process - script templates cut off at every byte offset (small bases, each quote kind) or a random one, with one of 14 malformed {{ }} expressions at a hole, a quote dropped or added, the end tag missing or cut, broken markup after the element, or unchanged - or an earlier script element of the same file (same templ / earlier templ), followed by a template already parsed and judged. distinct non-trivial = distinct inputs containing a rune the escapers must act on (control, quote, $, \\, < > & / +, U+2028/9) or an invalid byte; for names, distinct accepted names; for script templates, distinct templates whose text holds a backslash or a slash; for typed values, distinct (type, JSON text) pairs whose JSON text holds such a rune; for histories, distinct last earlier files that fail to parse or end inside a literal or comment"
+	c.Rule = "strings: every code point 0..0x2FFF singly (surrogates and out-of-range as invalid bytes), code points paired before/after each of 26 metacharacters, invalid lead/continuation patterns, XSS vectors and mutations, random strings over an adversarial alphabet; values: random nested slices/maps/structs of those strings with numbers, bools, nil; names: every string over a 10-symbol alphabet up to the tier's length; generated probe templates rendered through the real generator; script templates: every literal body of up to 3 (thorough 4) pieces over {x, escaped backslash, escaped quote, other quote, //, /*, \\n, backslash runs} for each quote kind followed by / holding a hole, plus a random grammar of statements, literals with escape sequences, comments and holes; line terminators: for each quote kind x each of LF, CR LF, CR, U+2028, U+2029, a literal holding the terminator after a backslash (line continuation), after an escaped backslash, after three backslashes, or raw, with a hole before it / directly after it / later on the continued line, a literal left open at the end of its line followed by statements with holes, terminators between holes and literals; in the random grammar line continuations and raw terminators of every form as pieces of literal bodies, literals left open at the end of the line, statements separated by each terminator form, and the whole template saved with LF, CR LF or mixed line endings; every template holding an LF is parsed again with CR LF line endings (the verdicts must not change); typed values: ~80 Go types of an in-literal hole (named int/uint/float/bool kinds with MarshalText or MarshalJSON returning a string, an object, an array, padded text; plain named scalars and Stringers; string kinds other than string; structs with marshalers, `,string` tags, embedded fields; json.RawMessage; pointers incl. nil and pointer-receiver marshalers; maps with TextMarshaler keys; slices, arrays, []byte; error values; json.Number, time.Time, big.Int, big.Float, net.IP, url.URL, slog.Level; the same held in interfaces; values that fail to marshal) x 8 fixed label triples x 5 JSON forms, then random labels, each called with its static type and as any; parse histories: one to three earlier files in the same process - script templates cut off at every byte offset (small bases, each quote kind) or a random one, with one of 14 malformed {{ }} expressions at a hole, a quote dropped or added, the end tag missing or cut, broken markup after the element, or unchanged - or an earlier script element of the same file (same templ / earlier templ), followed by a template already parsed and judged. distinct non-trivial = distinct inputs containing a rune the escapers must act on (control, quote, $, \\, < > & / +, U+2028/9) or an invalid byte; for names, distinct accepted names; for script templates, distinct templates whose text holds a backslash or a slash; for typed values, distinct (type, JSON text) pairs whose JSON text holds such a rune; for histories, distinct last earlier files that fail to parse or end inside a literal or comment"
 	c.Trusted = append(c.Trusted,
 		"specification spec/JsLex.v (JavaScript string-literal lexer and string values, script-data end condition; compared with node's evaluator in the thorough tier)",
 		"specification spec/JsScript.v (lexer for a whole script element's text over templates with holes; its string mode is proved to make the decisions of JsLex.lex_go)",
